@@ -52,6 +52,28 @@ def alt_kinds(alt) -> set[str]:
     return kinds
 
 
+def _self_reachable(ctx, cls_q: str, start: str, _cache: dict = {}) -> set[str]:
+    """Names of the methods reachable from cls.start through `self.m(...)` calls (resolved in the class's MRO)."""
+    key = (id(ctx), cls_q, start)
+    if key in _cache:
+        return _cache[key]
+    seen: set[str] = set()
+    work = [start]
+    while work:
+        name = work.pop()
+        if name in seen:
+            continue
+        seen.add(name)
+        m = ctx.prog.lookup_method(cls_q, name)
+        if m is None:
+            continue
+        for n in walk_no_nested(m.node):
+            if isinstance(n, ast.Call) and isinstance(n.func, ast.Attribute) and isinstance(n.func.value, ast.Name) and n.func.value.id == "self":
+                work.append(n.func.attr)
+    _cache[key] = seen
+    return seen
+
+
 def rule_hook_kind(ctx, rep):
     rep.rule(
         "R-HOOK-KIND",
@@ -92,7 +114,7 @@ def rule_hook_kind(ctx, rep):
                 # either the framework dispatcher reaches on_result_found, or the transformer drives a helper visitor
                 # (transform_module_impl override) whose own hook for this kind contains a result-gated change
                 drives = "transform_module_impl" in tm.own and any(
-                    e.cls != tq and e.method.name in (hook, "update_attribute", "update_simple_name") and (e.roles & {"RESULT", "SELECTED"}) for e in effs
+                    e.cls != tq and (e.roles & {"RESULT", "SELECTED"}) and e.method.name in _self_reachable(ctx, e.cls, hook) for e in effs
                 )
                 ok = has_orf or drives
                 why = f"framework {hook} dispatches to on_result_found, which the transformer does not define, and no driven helper acts on results"
